@@ -7,6 +7,8 @@
 #include <ucontext.h>
 #include <sys/mman.h>
 #include <unordered_map>
+#include <link.h>
+#include <set>
 using namespace vf;
 
 static const lib::Registry* REG; static int SET = 0;   /* which dependency set is currently injected (alternates per case: a later injection replaces the wipe function too) */
@@ -47,7 +49,7 @@ static std::vector<std::pair<uint8_t*, size_t>> static_ranges() {
     vf::StaticGuard& g = vf::static_guard(); g.load(); for (auto& reg : g.regions) r.emplace_back(reg.p, reg.n);
     return r;
 }
-struct Pat { std::string what; std::string bytes; size_t window; int idxw = 0; };   // idxw: width of one index for index-array patterns
+struct Pat { std::string what; std::string bytes; size_t window; int idxw = 0; bool stack_only = false; };   // stack_only: not searched for in static storage (pointers into the word tables live there legitimately)   // idxw: width of one index for index-array patterns
 static bool window_ok(const Pat& p, size_t off);
 static std::vector<Pat> G_ALL;   // every pattern of the current case, for the one static-storage scan at its end
 // one pass over the writable static storage: every 8-byte value is looked up in a table of the patterns' window prefixes
@@ -63,7 +65,7 @@ static std::string scan_static(const std::vector<Pat>& pats) {
 // search the used part of the dead stack for any `window` consecutive bytes of each pattern
 static std::string scan(const std::vector<Pat>& pats, const char* call) {
     { std::string fb = freed_blocks_wiped(call); if (!fb.empty()) return fb; }
-    for (auto& p : pats) if (G_ALL.size() < 400) G_ALL.push_back(p);
+    for (auto& p : pats) if (G_ALL.size() < 400 && !p.stack_only) G_ALL.push_back(p);
     size_t lo = 0; while (lo < STKSZ && STK[lo] == 0xA5) lo++; if (lo >= STKSZ) lo = STKSZ - 64; lo &= ~(size_t)63;
     for (auto& p : pats) { if (p.bytes.size() < p.window) continue;
         for (size_t off = 0; off + p.window <= p.bytes.size(); off++) {
@@ -83,6 +85,27 @@ static bool window_ok(const Pat& p, size_t off) {
 static std::string idx_bytes(const std::vector<unsigned>& v, int width) { std::string s; for (unsigned x : v) { uint64_t y = x; s.append((const char*)&y, (size_t)width); } return s; }
 static void add_indices(std::vector<Pat>& pats, const std::vector<unsigned>& idx, const std::string& what) {
     pats.push_back({what + " (16-bit array)", idx_bytes(idx, 2), 8, 2}); pats.push_back({what + " (32-bit array)", idx_bytes(idx, 4), 16, 4}); pats.push_back({what + " (64-bit array)", idx_bytes(idx, 8), 32, 8});
+}
+// The word indices in pointer form: the addresses of the 16 words' strings inside the library's word table.  They are found
+// empirically - the pointer-sized slots of the (opaque) language object that point at a NUL-terminated copy of a word of
+// that language, everything bounds-checked against the executable's own image - so no knowledge of the object's layout is used.
+static int image_cb(struct dl_phdr_info* info, size_t, void* data) {
+    auto* r = (std::pair<uintptr_t, uintptr_t>*)data; uintptr_t lo = UINTPTR_MAX, hi = 0;
+    for (int i = 0; i < info->dlpi_phnum; i++) if (info->dlpi_phdr[i].p_type == PT_LOAD) { uintptr_t a = info->dlpi_addr + info->dlpi_phdr[i].p_vaddr; lo = std::min(lo, a); hi = std::max(hi, a + info->dlpi_phdr[i].p_memsz); }
+    *r = {lo, hi}; return 1;   /* the first object is the executable itself */
+}
+static const std::map<std::string, uintptr_t>& word_addresses(const lib::LangEntry& le) {
+    static std::map<const polyseed_lang*, std::map<std::string, uintptr_t>> cache; auto it = cache.find(le.lang); if (it != cache.end()) return it->second;
+    std::map<std::string, uintptr_t> m; std::pair<uintptr_t, uintptr_t> img{0, 0}; dl_iterate_phdr(image_cb, &img);
+    const lib::LibWords& lw = lib::lib_words(le); uintptr_t base = (uintptr_t)le.lang;
+    if (lw.ok && img.first <= base && base < img.second) { std::set<std::string> words(lw.w.begin(), lw.w.end());
+        for (size_t i = 0; i < 2048 + 64 && base + (i + 1) * sizeof(uintptr_t) <= img.second; i++) { uintptr_t v; memcpy(&v, (const void*)(base + i * sizeof(uintptr_t)), sizeof v);
+            if (v < img.first || v + 80 >= img.second) continue; size_t n = strnlen((const char*)v, 72); if (n == 0 || n >= 72) continue; std::string w((const char*)v, n); if (words.count(w)) m.emplace(w, v); } }
+    return cache[le.lang] = m;
+}
+static void add_pointers(std::vector<Pat>& pats, const lib::LangEntry& le, const std::string& phrase_nfkd) {
+    const auto& wa = word_addresses(le); std::string b; for (auto& t : lib::tokens(phrase_nfkd)) { auto it = wa.find(t); if (it == wa.end()) { W().ev.count("word-table-pointers-unavailable"); return; } uint64_t v = it->second; b.append((const char*)&v, 8); }
+    if (b.size() == 128) { Pat p{"the addresses of the phrase's words in the word table (the 16 word indices in pointer form)", b, 32, 8}; p.stack_only = true; pats.push_back(p); W().ev.count("word-table-pointers-searched"); }
 }
 static std::vector<unsigned> indices_of(const lib::LangEntry& le, const std::string& phrase_nfkd) {
     static std::map<const polyseed_lang*, std::map<std::string, unsigned>> cache; auto& m = cache[le.lang];
@@ -115,7 +138,7 @@ static std::string oracle(const Case& c) {
     ev.count("call:create");
     // ---- encode
     on_stack([&]() { outlen = polyseed_encode(seed, le->lang, (polyseed_coin)coin, out); });
-    { std::vector<Pat> Q = P; Q.push_back({"the phrase text (composed)", phrase, 12}); Q.push_back({"the phrase text (decomposed)", pn, 12}); if (shown.size() == 16) { add_indices(Q, shown, "the 16 word indices"); add_indices(Q, data, "the polynomial coefficients"); } msg = scan(Q, "encode"); if (!msg.empty()) return msg + " [" + le->name_en + "]"; }
+    { std::vector<Pat> Q = P; Q.push_back({"the phrase text (composed)", phrase, 12}); Q.push_back({"the phrase text (decomposed)", pn, 12}); if (shown.size() == 16) { add_indices(Q, shown, "the 16 word indices"); add_indices(Q, data, "the polynomial coefficients"); add_pointers(Q, *le, pn); } msg = scan(Q, "encode"); if (!msg.empty()) return msg + " [" + le->name_en + "]"; }
     ev.count("call:encode");
     // ---- decoders, every exit path
     auto decode_case = [&](const std::string& input, unsigned dcoin, bool expl, const polyseed_lang* lang, const char* label, int expect, bool armfail) -> std::string {
@@ -124,7 +147,7 @@ static std::string oracle(const Case& c) {
         on_stack([&]() { dst = expl ? (int)polyseed_decode_explicit(in.c_str(), (polyseed_coin)dcoin, lang, &d) : (int)polyseed_decode(in.c_str(), (polyseed_coin)dcoin, &lo, &d); });
         k.fail_all = false;
         std::vector<Pat> Q = P; std::string inn = model::nfkd(in); Q.push_back({"the phrase text (as given)", in, 12}); Q.push_back({"the phrase text (decomposed)", inn, 12});
-        std::vector<unsigned> ix = indices_of(*le, pn); if (ix.size() == 16) { add_indices(Q, ix, "the 16 word indices"); std::vector<unsigned> dx = ix; dx[1] ^= dcoin; add_indices(Q, dx, "the polynomial coefficients"); }
+        std::vector<unsigned> ix = indices_of(*le, pn); if (ix.size() == 16) { add_indices(Q, ix, "the 16 word indices"); std::vector<unsigned> dx = ix; dx[1] ^= dcoin; add_indices(Q, dx, "the polynomial coefficients"); add_pointers(Q, *le, pn); }
         std::string m = scan(Q, label); if (dst == 0) polyseed_free(d);
         ev.count(std::string("exit:") + (expl ? "decode_explicit/" : "decode/") + model::status_name(dst)); (void)expect;
         return m.empty() ? m : m + " [" + le->name_en + ", status " + model::status_name(dst) + "]";
